@@ -134,6 +134,27 @@ fn expected_value_bytes(fam: &str, n: usize, tag: u8) -> Option<Vec<u8>> {
     }
 }
 
+/// TLC evaluates the records with 32-bit integers.  Every legitimate number of a record (virtual addresses, sizes,
+/// counts) is far below 2^28; a larger one is a symptom of corrupted bookkeeping in the code under test: it is clamped
+/// and the record is marked, so that the contract clauses can still be evaluated (and report it).
+const SANE_MAX: u64 = 1 << 28;
+fn sanitize(v: &mut Value, in_base: bool, insane: &mut bool) {
+    match v {
+        Value::Number(n) => {
+            let big = n.as_u64().map(|x| x > SANE_MAX).unwrap_or(true);
+            if big {
+                if !in_base {
+                    *insane = true;
+                }
+                *v = json!(SANE_MAX);
+            }
+        }
+        Value::Array(a) => a.iter_mut().for_each(|x| sanitize(x, in_base, insane)),
+        Value::Object(m) => m.iter_mut().for_each(|(k, x)| sanitize(x, in_base || k == "base", insane)),
+        _ => {}
+    }
+}
+
 fn layout(sz: usize, al: usize) -> Layout {
     Layout::from_size_align(sz, al).expect("behaviour layouts are valid")
 }
@@ -317,9 +338,15 @@ impl<'b> Ctx<'b> {
         if r.exhausted.get() {
             self.aborted = Some("region exhausted".into());
         }
+        let mut ov = Value::Object(o);
+        let mut insane = false;
+        sanitize(&mut ov, false, &mut insane);
+        if insane {
+            ov["insane"] = json!(true);
+        }
         let line = json!({
             "b": self.beh_id, "i": i + 1, "v": self.variant, "n": self.steps.len(),
-            "cfg": self.cfg, "a": step["a"], "args": step["args"], "exp": exp, "o": Value::Object(o),
+            "cfg": self.cfg, "a": step["a"], "args": step["args"], "exp": exp, "o": ov,
         });
         serde_json::to_writer(&mut *self.out, &line).unwrap();
         self.out.write_all(b"\n").unwrap();
@@ -850,6 +877,51 @@ pub fn exec(sc: &mut dyn ScopeOps, ctx: &mut Ctx<'_>) -> Flow {
                 o.insert("via".into(), json!("vec"));
                 ctx.record(i, Some(sc), o);
             }
+            "iter_grow" | "fmt_grow" => {
+                ctx.pc += 1;
+                let via = ctx.variant;
+                let (expect, eal, r): (Vec<u8>, usize, _) = if a == "iter_grow" {
+                    let (esz, eal, hint, n) = (u(&args, "esz"), u(&args, "eal"), u(&args, "hint"), u(&args, "n"));
+                    let tags: Vec<u8> = (0..n).map(|k| 1 + ((k * 7 + i * 13) % 250) as u8).collect();
+                    let r = catch_unwind(AssertUnwindSafe(|| sc.iter_grow(esz, eal, hint, &tags, via)));
+                    (vec_expected(&tags, esz), eal, r)
+                } else {
+                    let cstr = b(&args, "cstr");
+                    let pieces: Vec<Vec<u8>> = args["pieces"]
+                        .as_array()
+                        .map(|a| a.iter().enumerate().map(|(k, l)| vec![b'a' + ((k * 5 + i) % 26) as u8; l.as_u64().unwrap_or(0) as usize]).collect())
+                        .unwrap_or_default();
+                    let mut expect: Vec<u8> = pieces.concat();
+                    if cstr {
+                        expect.push(0);
+                    }
+                    let r = catch_unwind(AssertUnwindSafe(|| sc.fmt_grow(&pieces, cstr, via)));
+                    (expect, 1, r)
+                };
+                let mut o = match r {
+                    Ok(Ok((addr, bytes))) => {
+                        let mut o = Ctx::obs("ok");
+                        let addr = if bytes.is_empty() { 0 } else { addr };
+                        o.insert("addr".into(), json!(addr));
+                        o.insert("len".into(), json!(bytes.len()));
+                        o.insert("content_ok".into(), json!(bytes == expect));
+                        let id = u(&args, "id") as u64;
+                        if id != 0 && !bytes.is_empty() {
+                            ctx.blocks.insert(id, Blk::new(id, addr, bytes.len(), eal, 0));
+                            o.insert("_fresh".into(), json!(id));
+                        }
+                        o
+                    }
+                    Ok(Err(())) => Ctx::obs("err"),
+                    Err(e) => {
+                        let mut o = Ctx::obs("panic");
+                        o.insert("msg".into(), json!(panic_msg(&e)));
+                        o
+                    }
+                };
+                o.insert("via".into(), json!(via));
+                ctx.record(i, Some(sc), o);
+            }
             "iter_mut" => {
                 ctx.pc += 1;
                 let (esz, eal, rev, hint, n) = (u(&args, "esz"), u(&args, "eal"), b(&args, "rev"), u(&args, "hint"), u(&args, "n"));
@@ -907,7 +979,9 @@ pub fn exec(sc: &mut dyn ScopeOps, ctx: &mut Ctx<'_>) -> Flow {
             "alloc_huge" => {
                 ctx.pc += 1;
                 let al = u(&args, "al");
-                let l = layout((isize::MAX as usize - 63) & !63, al);
+                // the largest valid layout of this alignment: every chunk size computation overflows (capacity overflow: an
+                // error of the try_ methods, an unwinding panic of the panicking ones); the base allocator is not asked
+                let l = layout(isize::MAX as usize + 1 - al, al);
                 let via = ctx.via("alloc");
                 let r = catch_unwind(AssertUnwindSafe(|| sc.allocate(l, false, via)));
                 let mut o = match r {
@@ -1113,10 +1187,16 @@ pub fn run_root(make: &mut dyn FnMut(&Value) -> Option<Box<dyn BumpOps>>, ctx: &
                    ("ma", json!(1)), ("blocks", json!([])), ("damaged", json!([]))] {
         o.insert(k.into(), v);
     }
+    let mut ov = Value::Object(o);
+    let mut insane = false;
+    sanitize(&mut ov, false, &mut insane);
+    if insane {
+        ov["insane"] = json!(true);
+    }
     let line = json!({"b": ctx.beh_id, "i": ctx.steps.len() + 1, "v": ctx.variant, "n": ctx.steps.len(), "cfg": ctx.cfg,
                       "a": "final", "args": {"none": true},
                       "exp": {"res": "ok", "addr": 0, "cur": 0, "pos": 0, "allocated": 0, "count": 0, "nchunks": 0, "live": [], "ma": 1, "x": {"none": true}},
-                      "o": Value::Object(o)});
+                      "o": ov});
     serde_json::to_writer(&mut *ctx.out, &line).unwrap();
     ctx.out.write_all(b"\n").unwrap();
     ctx.out.flush().unwrap();
@@ -1147,7 +1227,8 @@ fn run_prep(sc: &mut dyn ScopeOps, ctx: &mut Ctx<'_>) {
     // only after the collection is gone -- expressed with a raw pointer because the borrow checker cannot follow
     // the `Option` being emptied in the loop below
     let scp: *mut (dyn ScopeOps + '_) = &mut *sc;
-    let made: Result<Result<Box<dyn PrepOps + '_>, ()>, ()> = Ok(unsafe { &mut *scp }.prep(esz, eal, rev, via, c0));
+    let init = if b(&args, "init") { Some(1 + ((i * 13) % 250) as u8) } else { None };
+    let made: Result<Result<Box<dyn PrepOps + '_>, ()>, ()> = Ok(unsafe { &mut *scp }.prep(esz, eal, rev, via, c0, init));
     region().fail_next.set(false);
     let mut coll: Option<Box<dyn PrepOps + '_>> = match made {
         Ok(Ok(pb)) => {
@@ -1162,7 +1243,10 @@ fn run_prep(sc: &mut dyn ScopeOps, ctx: &mut Ctx<'_>) {
     };
     let failed_at_entry = coll.is_none();
     let mut pending_entry_record = failed_at_entry;
-    let mut pushed: Vec<u8> = Vec::new();
+    let mut pushed: Vec<u8> = match init {
+        Some(t) if !failed_at_entry => vec![t; c0],
+        _ => Vec::new(),
+    };
     let mut result: Option<(usize, serde_json::Map<String, Value>)> = None;
     if !failed_at_entry {
         loop {
@@ -1224,8 +1308,18 @@ fn run_prep(sc: &mut dyn ScopeOps, ctx: &mut Ctx<'_>) {
                     ctx.pc += 1;
                     let pb = coll.as_mut().unwrap();
                     region().fail_next.set(b(&jargs, "fail"));
-                    let n = u(&jargs, "n");
-                    let r = catch_unwind(AssertUnwindSafe(|| pb.reserve(n)));
+                    let huge = b(&jargs, "huge");
+                    // huge: a valid array layout whose chunk size computation overflows
+                    let n = if huge { (isize::MAX as usize + 1 - eal) / esz - pb.len() } else { u(&jargs, "n") };
+                    let panicking = huge && ctx.variant == "panicking";
+                    let r = catch_unwind(AssertUnwindSafe(|| {
+                        if panicking {
+                            pb.reserve_panicking(n);
+                            Ok(())
+                        } else {
+                            pb.reserve(n)
+                        }
+                    }));
                     region().fail_next.set(false);
                     let mut o = match r {
                         Ok(Ok(())) => Ctx::obs("ok"),
